@@ -4,12 +4,13 @@ PROP = dict(
     properties_files=["C03"],
     design_ref="DESIGN.md section 10, C03",
     technique="Coq proofs: for every byte string localPath yields only proper segments below the root (invariant of the path.Clean segment stack), every request names only paths below the root, and (corollary of the refinement theorem) everything outside the root is unchanged by every request and history; correspondence check on exhaustive short strings for path.Clean/localPath and on traversal-shaped targets against a sandbox with canaries",
-    level_text="Machine-checked theorems C03_local_segs_proper / C03_local_path_confined (every byte string), C03_request_paths_confined, C03_outside_untouched (every tree, root, request path and Destination) and C03_history; C03_serve_relocates / C03_noninterference: serving at a root inside any sandbox is serving the subtree mapped there at its own top, so two sandboxes that agree on the (existing) served directory give the same response and agree afterwards — nothing beside or above the root is read. Every run compares path.Clean and localPath with the model on all strings over {'/','.','a'} up to length 8/10 and random fragments (NUL, backslash, %2e, dot-dot), and drives the real handler through http.ReadRequest with traversal-shaped request targets and Destinations (dot-dot at every position, doubled slashes, percent-encoded dots/slashes/backslashes/NUL, absolute-URL and scheme-relative forms) x every method in a sandbox with canary files beside, above and in a sibling 'rootx' of the root; observed: the whole sandbox snapshot before/after, hrefs, status.",
+    level_text="Machine-checked theorems C03_local_segs_proper / C03_local_path_confined (every byte string), C03_request_paths_confined, C03_outside_untouched (every tree, root, request path and Destination) and C03_history; C03_serve_relocates / C03_noninterference: serving at a root inside any sandbox is serving the subtree mapped there at its own top, so two sandboxes that agree on the (existing) served directory give the same response and agree afterwards — nothing beside or above the root is read. Every run compares path.Clean and localPath with the model on all strings over {'/','.','a'} up to length 8/10 and random fragments (NUL, backslash, %2e, dot-dot), and drives the real handler through http.ReadRequest with traversal-shaped request targets and Destinations (dot-dot at every position, doubled slashes, percent-encoded dots/slashes/backslashes/NUL, absolute-URL and scheme-relative forms) x every method in a sandbox with canary files beside, above and in a sibling 'rootx' of the root; rootspell stage: the served directory written in 8 unclean ways in the configuration (the hrefs reported must still lie inside the served namespace and address the resource); observed: the whole sandbox snapshot before/after, hrefs, status.",
     level_note="Trusted as for C01. 'Reads nothing outside' is the non-interference theorem C03_noninterference (hypothesis: the served directory exists; with a missing root MKCOL of '/' consults the root's parent, RelocProofs.mkcol_root_reads_parent) plus the canary-content scan of responses in the harness. Symbolic links inside the root pointing outside are a deployment matter outside the model. net/http and net/url decoding are exercised, not proved.",
     stages=[
         dict(name="paths", harness="dav", oracle="DAV", args=["-stage", "paths"], oracle_args=["c03"]),
         dict(name="traversal", harness="dav", oracle="DAV", args=["-stage", "traversal"], oracle_args=["c03"]),
         dict(name="history", harness="dav", oracle="DAV", args=["-stage", "history"], oracle_args=["c03"]),
+        dict(name="rootspell", harness="dav", oracle="DAV", args=["-stage", "rootspell"], oracle_args=["c03"]),
     ],
     rule="paths: all strings over {'/','.','a'} up to length 8 (quick) / 10 (thorough) + 20,000/300,000 random concatenations of fragments ('..', '//', NUL, backslash, '%2e%2e', ...), each through path.Clean and LocalFileSystem.localPath; traversal: ~450 systematic + 300/3,000 random hostile targets x 9 methods (as request target, and as Destination of COPY/MOVE from a file and from a collection) through http.ReadRequest against a sandbox {canary, rootx/secret, up/canary, root/...}; random histories as for C01 with the outside of the root compared; non-trivial = every case; distinct = by digest",
     exhaustive=True,
